@@ -345,16 +345,15 @@ theorem count_direct (zones : List ZPath) (z : ZPath) (i : Nat) (hi : i < zones.
 
 /-- **Every stream is counted exactly once in every zone on the path to its leaf, and nowhere else.** -/
 theorem content_count (paths zones : List ZPath) (hnd : paths.Nodup) (hcl : PrefClosed paths)
-    (hmem : ∀ i (hi : i < zones.length), zones[i] ∈ paths)
-    (hleaf : ∀ i (hi : i < zones.length), ∀ q ∈ paths, zones[i] <+: q → q = zones[i])
-    (i : Nat) (hi : i < zones.length) :
+    (i : Nat) (hi : i < zones.length) (hmem : zones[i] ∈ paths)
+    (hleaf : ∀ q ∈ paths, zones[i] <+: q → q = zones[i]) :
     ∀ fuel z, (∀ q ∈ paths, q.length < z.length + fuel) →
       (content paths zones fuel z).count i = if z <+: zones[i] then 1 else 0 := by
   intro fuel
   induction fuel with
   | zero =>
     intro z hb
-    have := hb _ (hmem i hi)
+    have := hb _ (hmem)
     have hnp : ¬ z <+: zones[i] := fun hp => by have := List.IsPrefix.length_le hp; omega
     simp [content, hnp]
   | succ fuel ih =>
@@ -375,7 +374,7 @@ theorem content_count (paths zones : List ZPath) (hnd : paths.Nodup) (hcl : Pref
             · exact absurd (List.IsPrefix.eq_of_length_le hp h1).symm he
           have hin : zones[i].take (z.length + 1) ∈ kidsOf paths z := by
             rw [mem_kidsOf]
-            refine ⟨hcl _ (hmem i hi) z.length hlen, by rw [List.length_take]; omega, ?_⟩
+            refine ⟨hcl _ (hmem) z.length hlen, by rw [List.length_take]; omega, ?_⟩
             rw [List.prefix_take_iff]
             exact ⟨hp, by omega⟩
           rw [hk'] at hin
@@ -404,12 +403,12 @@ theorem content_count (paths zones : List ZPath) (hnd : paths.Nodup) (hcl : Pref
           · exact h1
           · exfalso
             have hz : z = zones[i] := List.IsPrefix.eq_of_length_le hp h1
-            have := hleaf i hi k1 hk1.1 (hz ▸ hk1.2.2)
+            have := hleaf k1 hk1.1 (hz ▸ hk1.2.2)
             rw [this, ← hz] at hk1
             omega
         have hk0 : zones[i].take (z.length + 1) ∈ kidsOf paths z := by
           rw [mem_kidsOf]
-          refine ⟨hcl _ (hmem i hi) z.length hlen, by rw [List.length_take]; omega, ?_⟩
+          refine ⟨hcl _ (hmem) z.length hlen, by rw [List.length_take]; omega, ?_⟩
           rw [List.prefix_take_iff]
           exact ⟨hp, by omega⟩
         apply sum_indicator _ _ _ hknd hk0
